@@ -224,6 +224,17 @@ def run(ctx, fb, cfg):
     check_store(ctx, lib, R + "K1K6.no-silent-removal")
     check_with_cstore(ctx, lib, R + "K6.with-cstore")
     check_process_extension(ctx, lib, R + "K3.extension-hook")
+    # "process_extension is called after every successful unification": State::unify always hands
+    # its extension on, empty or not (rule shared with C01); every posting of a finite-domain goal
+    # builds a fresh constraint object (the store and the hook balance key constraints by identity)
+    import C01
+
+    C01.check_state_unify(ctx, lib, R + "K3.state-unify")
+    if any(p.startswith("crate::relation::clpfd") for p in lib.fns):
+        import fdrules
+
+        fdrules.check_posting(ctx, lib, R + "K3.posting")
+        fdrules.check_operand_plumbing(ctx, lib, R + "K3.operand-plumbing", only=("plusfd", "minusfd", "timesfd", "ltefd", "diseqfd"))
 
 
 def run_once(ctx, tier):
